@@ -363,6 +363,10 @@ void Tracer::trace(char const*, unsigned long, std::string const& call)
   } else if (call.find("threw unknown exception") != std::string::npos) {
     res = "UNKNOWN";
   }
+  // the exception is noted once: a second note (or a note beside a result) is part of the record
+  size_t notes = 0;
+  for (size_t at = call.find("threw "); at != std::string::npos; at = call.find("threw ", at + 1)) ++notes;
+  if (notes > 1 || (notes == 1 && arrow != std::string::npos)) res += " notes:" + std::to_string(notes);
   std::string params = call.substr(0, arrow == std::string::npos ? call.find("threw ") : arrow + 1);
   ev("trace t" + std::to_string(id) + " " + nm + " args=" + parse_param_values(params) + " " + res);
 }
